@@ -268,6 +268,7 @@ class Report:
         if self.evaluations:
             cov["evaluations"] = self.evaluations
             cov["distinct_nontrivial"] = self.distinct
+            cov["rule"] = self.extra.pop("rule", "one evaluation per executed case; distinct = distinct (system, operation, step) combinations")
         cov.update(self.extra)
         ev = {"property_id": self.prop, "tier": self.tier, "seed": self.seed, "level": self.level,
               "coverage": cov, "assumptions": self.assumptions, "wall_s": round(wall, 1),
@@ -556,4 +557,59 @@ def chunk_stage(rep, work, name, constants, systems, scales, e2e_every=1, timeou
         rep.violations.append((rp, "%s scale %d: %s  [case %s]" % (f["system"], f["scale"], f["msg"], json.dumps(f["case"]))))
     log("stage %-28s model %d states; %d cases, %d decoder + %d e2e runs, %d failures" % (
         name, res.distinct, summ["cases"], summ["decoder_runs"], summ["e2e_runs"], summ["n_failures"]))
+    return summ
+
+
+def crash_stage(rep, work, name, constants, systems, every=1, timeout=1800):
+    """C15 crash points: TLC emits (history, audit before, audit after) for every
+    mutating transition; the harness kills the last step at each of its mutating
+    file-system calls and audits after a restart."""
+    tag = re.sub(r"\W", "_", name)
+    cfgfile = "MC_Store.%s.cfg" % tag
+    write_cfg(work.path(cfgfile), constants, view="View", action_constraint="EmitCrash")
+    out = work.path("crash.%s.json" % tag)
+    cmd = [HARNESS, "crash", "--systems", ",".join(systems), "--seed", str(rep.seed), "--out", out, "--every", str(every)]
+    p = subprocess.Popen(cmd, stdin=subprocess.PIPE, stderr=subprocess.PIPE, bufsize=1 << 20)
+    errbuf = []
+    t = threading.Thread(target=lambda: errbuf.extend(p.stderr.readlines()), daemon=True)
+    t.start()
+    res = run_tlc(work, "MC_Store.tla", cfgfile, sink=p.stdin, workers=1, timeout=timeout)
+    p.stdin.close()
+    rc = p.wait()
+    t.join(timeout=5)
+    if rc != 0 or not res.ok:
+        raise Infra("crash stage failed: harness rc=%s tlc ok=%s\n%s\n%s" % (rc, res.ok, b"".join(errbuf).decode()[-2000:], "\n".join(res.log[-20:])))
+    with open(out) as f:
+        summ = json.load(f)
+    rep.add_tlc(name, res)
+    rep.traces += summ["crash_points"]
+    rep.evaluations += summ["crash_points"]
+    rep.distinct += len(summ.get("distinct_ops") or {})
+    rep.stages.append({"stage": name, "tours": summ["tours"], "crash_points": summ["crash_points"],
+                       "distinct_op_step_pairs": len(summ.get("distinct_ops") or {}),
+                       "ended_in_post_state": summ["ended_in_post_state"], "ended_in_pre_state": summ["ended_in_pre_state"],
+                       "failures": summ["n_failures"]})
+    for smp in summ.get("samples") or []:
+        if len(rep.samples) < 5:
+            rep.samples.append(smp)
+    import hashlib
+    seen = set()
+    for f in summ.get("failures") or []:
+        last = f["tour"][-1]["op"].get("op") if f.get("tour") else "?"
+        call = (f.get("calls") or ["?"])[-1].split(" ")[0]
+        fid = classify(rep.prop, f["system"], "Crash:" + last, f["msg"])
+        if fid:
+            rep.known[fid] = rep.known.get(fid, 0) + 1
+            continue
+        sig = (f["system"], last, call, f["msg"][-60:])
+        if sig in seen:
+            continue
+        seen.add(sig)
+        os.makedirs(os.path.join(VERIF, "replays"), exist_ok=True)
+        rp = os.path.join(VERIF, "replays", "C15-crash-%s.json" % hashlib.sha1(json.dumps(f, sort_keys=True).encode()).hexdigest()[:16])
+        with open(rp, "w") as fh:
+            json.dump(f, fh, indent=1)
+        rep.violations.append((rp, "%s %s crash at call %d/%d: %s" % (f["system"], last, f["k"], f.get("of", 0), f["msg"][:400])))
+    log("stage %-28s tlc %d/%d; %d crash points (%d post / %d pre), %d failures" % (
+        name, res.distinct, res.generated, summ["crash_points"], summ["ended_in_post_state"], summ["ended_in_pre_state"], summ["n_failures"]))
     return summ
